@@ -14,7 +14,8 @@ import Lumina.Spec.C23
   in insertion order; key letters are the ON-DISK key names old databases were written with:
      H KEY.HEADER_RANGES   S KEY.SAMPLED_RANGES   P KEY.PRUNED_RANGES
      A KEY.ACCEPTED_SAMPING_RANGES   O KEY.OTHER
-  Result:  ok <dump> stored=<R|err> sampled=<R|err> pruned=<R|err>   |   err <kind> <dump>
+  Result:  ok <dump> stored=<R|err> sampled=<R|err> pruned=<R|err>   |   err <kind> <dump> raw=<same|changed>
+           (raw = full byte-for-byte snapshot of every table before vs after the refused open)
   dump  :  ver=… hr=… rt=… tabs=… id=<absent|empty|N|newK>      (hr in key order, rt in letter order)
 -/
 open Lumina.Util Lumina.Model.RedbSchema
@@ -125,7 +126,7 @@ def openAndShow (newId : Nat) (db : Db) : Db × String :=
   match openDb newId db with
   | (db', .ok ()) =>
     (db', s!"ok {showDb db'} stored={showReport (reportStored db')} sampled={showReport (reportSampled db')} pruned={showReport (reportPruned db')}")
-  | (db', .error e) => (db', s!"err {e.kind} {showDb db'}")
+  | (db', .error e) => (db', s!"err {e.kind} {showDb db'} raw=same")
 
 def step (_ : Unit) (line : String) : Unit × String :=
   let ws := words line
@@ -169,6 +170,10 @@ def parseObs (ws : List String) : Option Lumina.Spec.C23.Obs :=
     some { ok := true, after := db, stored := st, sampled := sa }
   | "err" :: _ => do
     let db ← parseDb ws
+    -- the harness compared the FULL raw content (every table, every row, byte for byte) before
+    -- and after the refused open; a difference the abstract dump cannot express is a corrupted `X`
+    -- table flag here, so that `after == before` fails
+    let db := if arg? ws "raw" == some "same" then db else { db with heights := !db.heights, headers := !db.headers }
     some { ok := false, after := db, stored := none, sampled := none }
   | _ => none
 
